@@ -210,6 +210,19 @@ func (h *zzHist) observe(outcome string) string {
 			sb.WriteByte('0')
 		}
 	}
+	sb.WriteByte('|')
+	for _, b := range []string{"0", "1"} {
+		switch n := h.builder(b).PkgName(); n {
+		case "github.com/tencent/goom":
+			sb.WriteByte('0')
+		case "zzpkg/p1":
+			sb.WriteByte('1')
+		case "zzpkg/p2":
+			sb.WriteByte('2')
+		default:
+			sb.WriteString("?" + n)
+		}
+	}
 	return sb.String()
 }
 
@@ -240,6 +253,9 @@ func (h *zzHist) step(t []string) (res string) {
 			m = h.builder(t[1]).UnExportedVar(zzPkgPath + v.sym)
 		}
 		h.handles = append(h.handles, m)
+		return "ok"
+	case len(t) == 3 && t[0] == "pkg" && (t[2] == "1" || t[2] == "2"):
+		h.builder(t[1]).Pkg("zzpkg/p" + t[2]) // package override pending for the next lookup
 		return "ok"
 	case (len(t) == 2 || len(t) == 3) && t[0] == "lookbad":
 		switch t[1] {
